@@ -343,18 +343,39 @@ def work_damaged(task):
                         ev.label("damaged-file")
                         got = [int(s_[-1]["v"]) for s_ in r.get("res", [])]
                         if "error" not in r or not r["error"] or (want is not None and got != want) or victim.offset in got:
-                            ev.violations.append({"property": PID, "query": q, "elf_hex": bytes(data).hex()[:40000], "signature": "C14:damaged:%s" % q.split(" ")[-2],
+                            ev.violations.append({"property": PID, "query": q, "elf_hex": bytes(data).hex(), "signature": "C14:damaged:%s" % q.split(" ")[-2],
                                                   "reason": "DIE %#x (child #%d of %#x) has an abbreviation code its table does not define; `%s` yields %r and %s"
                                                   % (victim.offset, k, par.offset, q, got[:12], ("fails with %r" % r["error"]) if r.get("error") else "ends as if nothing were wrong")})
                             break
+                    # the failure does not wear off: `parent` has to scan the whole unit, runs into the damaged DIE and
+                    # fails -- on the first execution over this Dwarf value and on every later one (a table left
+                    # half-built by the failed scan must not answer the second time)
+                    pq = "entry (offset == %d) child (pos == 0) parent offset" % par.offset
+                    runs = []
+                    for _ in range(3):
+                        r = drv.run(pq, tok, limit=1000, steps=5000000)
+                        runs.append(([int(s_[-1]["v"]) for s_ in r.get("res", [])], bool(r.get("error"))))
+                    ev.case(key=("damaged-again", i), nontrivial=True)
+                    ev.label("damaged-file:executed-again")
+                    if not runs[0][1] or runs[1] != runs[0] or runs[2] != runs[0]:
+                        ev.violations.append({"property": PID, "query": pq, "elf_hex": bytes(data).hex(), "signature": "C14:damaged-again",
+                                              "reason": "DIE %#x has an abbreviation code its table does not define; `%s` executed three times on one Dwarf value: "
+                                              "(results, failed) = %r -- the failure has to surface every time" % (victim.offset, pq, runs)})
+                    elif i % 5 == 1 and not runs[0][0]:
+                        rc, out, err = run_cli([path, "--a", "(1, 2, 3)", "-e", "drop raw " + pq])
+                        ev.case(key=("damaged-again-cli", i), nontrivial=True)
+                        if rc != 2 or b"dwgrep:" not in err or out.strip():
+                            ev.violations.append({"property": PID, "query": "drop raw " + pq, "elf_hex": bytes(data).hex(), "signature": "C14:damaged-again-cli",
+                                                  "reason": "the command line tool, three inputs over one damaged file (--a '(1, 2, 3)'), a query that fails before its first result: "
+                                                  "exit status %d, stdout %r, stderr %r" % (rc, out[:200], err[:300])})
                     if i % 5 == 0:
                         rc, out, err = run_cli([path, "-e", "raw entry (offset == %d) child offset" % par.offset])
                         ev.case(key=("damaged-cli", i), nontrivial=True)
                         if rc != 2 or b"dwgrep:" not in err:
-                            ev.violations.append({"property": PID, "query": "raw entry (offset == %d) child offset" % par.offset, "elf_hex": bytes(data).hex()[:40000],
+                            ev.violations.append({"property": PID, "query": "raw entry (offset == %d) child offset" % par.offset, "elf_hex": bytes(data).hex(),
                                                   "signature": "C14:damaged-cli", "reason": "the command line tool on a file with a damaged DIE: exit status %d, stderr %r" % (rc, err[:200])})
                 except DriverCrash as e:
-                    ev.violations.append({"property": PID, "query": "damaged file", "elf_hex": bytes(data).hex()[:40000], "reason": "crash on a damaged file: " + e.report[-2500:],
+                    ev.violations.append({"property": PID, "query": "damaged file", "elf_hex": bytes(data).hex(), "reason": "crash on a damaged file: " + e.report[-2500:],
                                           "signature": "C14:damaged-crash:%d" % i})
                 except (DriverTimeout, RuntimeError):
                     ev.inconc("damaged file: watchdog or cannot open")
@@ -658,6 +679,27 @@ def replay(path):
             r = drv.run(text.encode(), flags=8, limit=3, steps=3000000)
             print({k: v for k, v in r.items() if k != "stderr"})
             return 0
+        except DriverCrash as e:
+            print("crash: " + e.report[-1500:])
+            return 1
+        finally:
+            drv.kill()
+    if "elf_hex" in rec:
+        from ..dwcheck import TempElf
+        drv = Driver(timeout=120)
+        try:
+            with TempElf(bytes.fromhex(rec["elf_hex"])) as path:
+                tok = "V%d" % drv.open(path, True)
+                runs = []
+                for _ in range(3):
+                    r = drv.run(rec["query"].replace("drop raw ", ""), tok, limit=1000, steps=5000000)
+                    runs.append(([s_[-1]["v"] for s_ in r.get("res", [])], r.get("error")))
+                    print(runs[-1])
+                if "cli" in rec.get("signature", ""):
+                    rc, out, err = run_cli([path] + (["--a", "(1, 2, 3)"] if rec["query"].startswith("drop ") else []) + ["-e", rec["query"]])
+                    print("command line tool: exit status", rc, out[:200], err[:300])
+                    return 1 if rc != 2 or b"dwgrep:" not in err else 0
+                return 1 if not all(r[1] for r in runs) or any(r != runs[0] for r in runs) else 0
         except DriverCrash as e:
             print("crash: " + e.report[-1500:])
             return 1
